@@ -225,3 +225,46 @@ Example C40_code_nonvacuous :
             (TListN [TConst (CStr (lit "sally@")); TConst (CStr (lit "xie@"))])]), []) /\
   gen_visit None (EConstant (1, 0) CEllipsis) [] = GFail (GErr (ErrUnsupported (1, 0))).
 Proof. vm_compute. repeat split; reflexivity. Qed.
+
+(* parse_predicate_formula itself (GristGen.ParseFormula_gen, generated by harness/pr2v.py on every run: the try
+   block, the conversion, the loop over the tokens that wraps the FIRST `#` comment, the re-raise).  Bridge and
+   the statements about it; [tokens] are all tokens as (type == COMMENT, string). *)
+Require Import GristGen.ParseFormula_gen Grist.Proofs.ParseFormula_bridge.
+
+Theorem C40_code_parse_bridge : forall (dollar_ok : bool) (parsed : option expr) (tokens : list (bool * str)),
+  match parsed with Some e => wf_expr e = true | None => True end ->
+  gen_parse_predicate_formula dollar_ok parsed tokens
+  = lift_parse (parse_predicate (if dollar_ok then parsed else None) (comments_of tokens)).
+Proof. exact gen_parse_bridge. Qed.
+
+Theorem C40_code_parse_unsupported_rejected : forall e tokens,
+  wf_expr e = true -> supported e = false ->
+  exists err, gen_parse_predicate_formula true (Some e) tokens = GFail (GErr err).
+Proof.
+  intros e tokens Hwf Hs. rewrite (gen_parse_bridge true (Some e) tokens Hwf).
+  destruct (C40_unsupported_rejected e (comments_of tokens) Hs) as [err ->]. cbn. eauto.
+Qed.
+
+Theorem C40_code_parse_faithful : forall (M : PySem) (g : env M) e tokens,
+  membership_ignores_tuple M -> wf_expr e = true -> in_subset e = true ->
+  exists t, gen_parse_predicate_formula true (Some e) tokens = GOk (to_py t) /\ eval_tree M g t = eval_py M g e.
+Proof.
+  intros M g e tokens Hm Hwf Hs. rewrite (gen_parse_bridge true (Some e) tokens Hwf).
+  destruct (C40_parse_faithful M g e (comments_of tokens) Hm Hs) as [t [-> Et]]. cbn. eauto.
+Qed.
+
+Theorem C40_code_comment_node : forall e tokens c v,
+  wf_expr e = true -> first_comment (comments_of tokens) = Some c ->
+  gen_parse_predicate_formula true (Some e) tokens = GOk v ->
+  exists t0, convert e = Ok t0 /\ v = PList [pstr "Comment"; to_py t0; PLeaf (CStr (py_strip (tl c)))].
+Proof.
+  intros e tokens c v Hwf Hc H. rewrite (gen_parse_bridge true (Some e) tokens Hwf) in H.
+  destruct (parse_predicate (Some e) (comments_of tokens)) as [t|err] eqn:E; [|discriminate].
+  destruct (C40_comment_node e _ c t Hc E) as [t0 [C0 ->]]. inversion H. eauto.
+Qed.
+
+Example C40_code_parse_example :
+  gen_parse_predicate_formula true (Some (EConstant (1, 0) (CBool true)))
+    [(false, lit "True"); (true, lit "# Comment!  "); (false, []); (true, lit "# second")]
+  = GOk (to_py (TComment (TConst (CBool true)) (lit "Comment!"))).
+Proof. vm_compute. reflexivity. Qed.
